@@ -77,7 +77,7 @@ class G:
 
     def email(self):
         t = self.tok("E")
-        return t + "@ex-ample.org"
+        return t + self.r.choice(["@ex-ample.org", "@ex-ample.org", "@Ex-Ample.ORG", ".Mixed.Case@EXAMPLE.com"])
 
     def num(self):
         self.n += 1
